@@ -57,7 +57,7 @@ pub fn to_oracle_chals<F: Copy>(vc: &VerifierChals<F>) -> Chals<F> {
     Chals { y: vc.y, z: vc.z, u: vc.u, x: vc.x, w: vc.w, ipp: vc.ipp.clone(), r: vc.r }
 }
 
-pub fn job_c03<C: Base + 'static>(shape: &Shape, seed: u64, curve: &str) -> Job
+pub fn job_c03<C: Base + 'static>(shape: &Shape, seed: u64, curve: &str, torsion: Option<Vec<C>>) -> Job
 where
     C::ScalarField: Inner,
 {
@@ -174,6 +174,13 @@ where
     });
     job.path_conditions = describe_events(&events_in("verify"));
     job.stats = stats();
+    // native differential run against the reference prover / unbatched verifier on this curve
+    // (adversarial reference provers included; concrete, reported as structural checks)
+    if torsion.is_some() || curve == "secq256k1" {
+        for (name, ok) in crate::replay::diff_native::<C>(shape, seed, torsion.clone()) {
+            job.check(&format!("reference differential: {}", name), ok, String::new());
+        }
+    }
     job.replay = serde_json::json!({"kind": "c03", "shape": shape_json(shape), "seed": seed});
     job
 }
